@@ -53,15 +53,48 @@ What the seeded changes made me strengthen (each was a miss or an "undecided" be
 * **C04-3 / C15-2 (early return when the sender slot is empty)**: the lock/take rewrites of the cells
   are unit-wide rather than per function.
 * **C09-2 (release outside the subscribers lock)**: Kani obligation `O-C09-k-release-under-lock`.
+* **C11-3 (all Function effects batched into one job), C10-3 (forwarding skipped when the queue is full),
+  C14-2 (Exit sent with a non-blocking try_send)**: the changed functions leave the Verus subset (stubbed, property
+  undecided); the witness suites got the missing scenarios (effect kinds Function/Action in `pipeline`, `overfill` in
+  `channeled`, `late_consumer` in `iter`).
+* **C18-4 (snapshot reads the wrong counter)**: the Kani harness `metrics_snapshot_copies`.
+* **C09-3 (clear_subscribers releases outside the lock)**: Kani `clear_releases_under_lock` + witness scenario
+  `stoprace` (unsubscribe from another thread while stop() is releasing).
+* **C07-3 = C03-3 (do_notify walks the live list by index)**: witness scenario `selfunsub` (a subscriber that
+  unsubscribes itself while being notified; the others must still see every action).
+* **C16-3 (subscribe_with_selector primes last_value)**: witness scenario through a running store
+  (`selector store vals=..`), not only on a bare `SelectorSubscriber`.
+* **C10-4 (delivery loop drops a message when its private backlog is at 16)**: `overfill` with capacity 40;
+  `ReceiverChannel::try_recv` put under contract.
+* **C02-3 (Store::dispatch deferred to the pool on pool threads)**: witness scenario `reentrant` (dispatch through
+  the `Store` trait from a subscriber callback with every pool worker busy).
+* **C05-3 (close() sends Exit outside the lock)**: the Kani lock group is now also run for C05 (its obligations
+  are tagged C05) + witness scenario `closerace`.
+* **C18-5 (error_occurred booked when an open store's channel refuses an action)**: the counter part of
+  `O-C02-dispatch-open` was not tagged C18: split out as `O-C18-dispatch-open-counts-nothing`; Kani
+  `O-C18-k-(d)dispatch-open-no-error`; the lock group is now also run for C18.
 
 Harmless edits (`seeded/benign/*.diff`, written by me): %s. They compile, pass the suite, keep
-every property, and no check raises an alarm on them (they verify completely, except
-`b10_drain_loop`, whose `Vec::drain` is outside the Verus subset: `do_effect` is stubbed, C11/C12
-become undecided — exit 2 — and the witness suites agree with the real code). Two of them were
-alarms with the first version of the contracts (a metric call moved relative to a callback; the
-state published after the effects but before the notification) and led to the order-insensitive
-metric counters and to `O-C08-published-before-notify` being a precondition of `do_notify` instead
-of a position in a trace.
+every property, and `tools/benignrun.sh` runs all 18 checks against each: no check prints a VIOLATION line.
+Most verify completely (exit 0 everywhere); where an edit leaves the Verus subset or loses an anchor the
+properties of that function end *undecided* (exit 2), never as an alarm: `b10_drain_loop` (`Vec::drain`),
+`b13_decoy_loops_and_closures` (an unrelated closure with `x * 2`, whose overflow Verus cannot exclude:
+panic-freedom is not a listed property), `b19_release_in_reverse_order` (`while let Some(s) = subscribers.pop()`
+instead of the `for` loop). Alarms these edits raised with earlier versions, and what was corrected — in
+the machinery, never in the properties:
+
+* a metric call moved relative to a callback (`b2`) → metric events left the trace; additive counters;
+* the state published after the effects but before the notification (`b4`) → `O-C08-published-before-notify`
+  became a precondition of `do_notify` instead of a position in a trace;
+* a decoy `let total = effects.len();` in front of the real one (`b7`) → the ghost capture was inserted at the
+  wrong place and six properties were reported violated → usage-based binds, regex selectors, `//@before_loop`;
+* `x * 2` in an unrelated closure (`b13`) → arithmetic/std-precondition failures outside named clauses are
+  classed undecided for that function;
+* subscribers released in reverse order at shutdown (`b19`) → the witness suite `loop` compared the order of the
+  release events, which no property states → compared as a set;
+* (found by review, not by an edit) the model pinned `action_executed`, `effect_executed`, `state_notified`,
+  `subscriber_notified` and "the shutdown marker counts as received" → only the counters of the balance
+  equations are modelled, the marker may or may not be booked.
 ''' % (len(rows), '\n'.join(rows), ', '.join('`%s`' % b for b in benign))
 p = os.path.join(HERE, '..', 'DESIGN.md')
 s = open(p).read()
